@@ -242,6 +242,9 @@ def _stmt(fn, st, S):
         return CONT
     if k == "agg":
         hit = [i for i, o in enumerate(rv[3]) if op_place(o) is not None and S.holds(op_place(o))]
+        if rv[1] == "closure" and not hit:
+            # a closure that captures the value by reference (green ids are Copy): the closure now stands for it
+            hit = [i for i, o in enumerate(rv[3]) if op_place(o) is not None and not place_proj(op_place(o)) and place_local(op_place(o)) in S.refs]
         if bare:
             S.kill(dl)
         if hit:
